@@ -48,7 +48,7 @@ def make_config(rng):
         A = graphs.random_connected_graph(rng, n, 0.5)
     hybrid = bool(rng.integers(2))
     return {"adj": A.tolist(), "hybrid": hybrid, "n_emitter": int(rng.integers(1, min(3, A.shape[0]) + 1)),
-            "backend": "DensityMatrixCompiler" if (rng.random() < 0.25 and not hybrid) else "StabilizerCompiler",
+            "backend": "DensityMatrixCompiler" if (rng.random() < 0.45 and not hybrid) else "StabilizerCompiler",
             "n_pop": int(rng.integers(3, 9)), "n_stop": int(rng.integers(3, 9)), "n_hof": int(rng.integers(1, 6)),
             "tournament_k": int(rng.integers(0, 4)), "selection": bool(rng.integers(2)), "adaptive": bool(rng.integers(2)),
             "det": int(rng.integers(2)), "seed": int(rng.integers(100000))}
